@@ -528,6 +528,12 @@ def run_cut_property(rep, tier, seed, prop, loss):
         corpus = [(Hist("c0", "cfg mfs=60 sync=always frag=0/1 dead=0 small=1099511627776 cache=256 pool=1",
                         [P(b"k", b"v1"), P(b"z", b"w" * 50), P(b"k", b"v2"), ("merge",), P(b"q", b"1")]),
                    dict(mfs=60, preset="corpus", keys=[b"k", b"z", b"q"], cache=256, pool=1))]
+    # a merge whose removal phase matters: six keys, each set in one file and deleted in a later one, all merged in
+    # one pass (between two removals the tombstone's file must never go before the value's file)
+    ks6 = [bytes([0x61 + i]) for i in range(6)]
+    corpus.append((Hist("c-del", f"cfg mfs=0 sync={'always' if loss else 'none'} frag=0/1 dead=0 small=1099511627776 cache=256 pool=1",
+                        [P(k, b"v" + k) for k in ks6] + [("del", k) for k in ks6] + [("merge",), P(b"z", b"1")]),
+                   dict(mfs=0, preset="corpus", keys=ks6 + [b"z"], cache=256, pool=1)))
     for idx in range(n + len(corpus)):
         if idx < len(corpus):
             h, meta = corpus[idx]
